@@ -28,14 +28,14 @@ import (
 
 const zinf = int64(1) << 60
 
-type zone struct {
+type czone struct {
 	n   int
 	m   []int64
 	bot bool
 }
 
-func newZone(n int) *zone {
-	z := &zone{n: n, m: make([]int64, n*n)}
+func newCZone(n int) *czone {
+	z := &czone{n: n, m: make([]int64, n*n)}
 	for i := range z.m {
 		z.m[i] = zinf
 	}
@@ -45,12 +45,12 @@ func newZone(n int) *zone {
 	return z
 }
 
-func (z *zone) clone() *zone {
-	c := &zone{n: z.n, m: append([]int64(nil), z.m...), bot: z.bot}
+func (z *czone) clone() *czone {
+	c := &czone{n: z.n, m: append([]int64(nil), z.m...), bot: z.bot}
 	return c
 }
 
-func bottomZone(n int) *zone { z := newZone(n); z.bot = true; return z }
+func bottomCZone(n int) *czone { z := newCZone(n); z.bot = true; return z }
 
 func zadd(a, b int64) int64 {
 	if a >= zinf || b >= zinf {
@@ -60,7 +60,7 @@ func zadd(a, b int64) int64 {
 }
 
 // add v_i − v_j ≤ c and restore closure
-func (z *zone) add(i, j int, c int64) {
+func (z *czone) add(i, j int, c int64) {
 	if z.bot || c >= z.m[i*z.n+j] {
 		return
 	}
@@ -89,7 +89,7 @@ func (z *zone) add(i, j int, c int64) {
 	}
 }
 
-func (z *zone) forget(x int) {
+func (z *czone) forget(x int) {
 	if z.bot {
 		return
 	}
@@ -103,7 +103,7 @@ func (z *zone) forget(x int) {
 }
 
 // x := y + c
-func (z *zone) assign(x, y int, c int64) {
+func (z *czone) assign(x, y int, c int64) {
 	if z.bot {
 		return
 	}
@@ -125,11 +125,11 @@ func (z *zone) assign(x, y int, c int64) {
 	z.add(y, x, -c)
 }
 
-func (z *zone) entails(i, j int, c int64) bool {
+func (z *czone) entails(i, j int, c int64) bool {
 	return z.bot || z.m[i*z.n+j] <= c
 }
 
-func zjoin(a, b *zone) *zone {
+func czjoin(a, b *czone) *czone {
 	if a.bot {
 		return b.clone()
 	}
@@ -145,7 +145,7 @@ func zjoin(a, b *zone) *zone {
 	return out
 }
 
-func zwiden(a, b *zone) *zone {
+func czwiden(a, b *czone) *czone {
 	if a.bot {
 		return b.clone()
 	}
@@ -161,7 +161,7 @@ func zwiden(a, b *zone) *zone {
 	return out
 }
 
-func zleq(a, b *zone) bool {
+func czleq(a, b *czone) bool {
 	if a.bot {
 		return true
 	}
@@ -172,6 +172,125 @@ func zleq(a, b *zone) bool {
 		if a.m[i] > b.m[i] {
 			return false
 		}
+	}
+	return true
+}
+
+// zone: the abstract state. Without a partition variable it is one convex zone.
+// With one (an integer local that takes a negative sentinel such as −1 and is
+// tested against it: `colon := -1 … if colon >= 0 { s[start:colon] }`) it is
+// the disjunction of two convex zones, one for pv ≥ 0 and one for pv ≤ −1
+// (trace partitioning on the sign of pv): relations that hold only once the
+// variable has a real value (start ≤ colon < i) survive the joins with the
+// paths on which it still holds the sentinel.
+type zone struct {
+	main *czone // pv ≥ 0 (or everything, when pv == 0)
+	alt  *czone // pv ≤ −1; nil when there is no partition variable
+	pv   int
+}
+
+func newZone(n, pv int) *zone {
+	z := &zone{main: newCZone(n), pv: pv}
+	if pv > 0 {
+		z.alt = newCZone(n)
+		z.main.add(0, pv, 0) // 0 − pv ≤ 0
+		z.alt.add(pv, 0, -1) // pv − 0 ≤ −1
+	}
+	return z
+}
+
+func bottomZone(n, pv int) *zone {
+	z := &zone{main: bottomCZone(n), pv: pv}
+	if pv > 0 {
+		z.alt = bottomCZone(n)
+	}
+	return z
+}
+
+func (z *zone) isBot() bool { return z.main.bot && (z.alt == nil || z.alt.bot) }
+
+func (z *zone) clone() *zone {
+	c := &zone{main: z.main.clone(), pv: z.pv}
+	if z.alt != nil {
+		c.alt = z.alt.clone()
+	}
+	return c
+}
+
+func (z *zone) add(i, j int, c int64) {
+	z.main.add(i, j, c)
+	if z.alt != nil {
+		z.alt.add(i, j, c)
+	}
+}
+
+// repartition restores main ⊆ {pv ≥ 0}, alt ⊆ {pv ≤ −1} after pv was written
+func (z *zone) repartition() {
+	if z.alt == nil {
+		return
+	}
+	n := z.main.n
+	nm, na := bottomCZone(n), bottomCZone(n)
+	for _, d := range []*czone{z.main, z.alt} {
+		if d.bot {
+			continue
+		}
+		p := d.clone()
+		p.add(0, z.pv, 0)
+		nm = czjoin(nm, p)
+		q := d.clone()
+		q.add(z.pv, 0, -1)
+		na = czjoin(na, q)
+	}
+	z.main, z.alt = nm, na
+}
+
+func (z *zone) forget(x int) {
+	z.main.forget(x)
+	if z.alt != nil {
+		z.alt.forget(x)
+		if x == z.pv {
+			z.repartition()
+		}
+	}
+}
+
+func (z *zone) assign(x, y int, c int64) {
+	z.main.assign(x, y, c)
+	if z.alt != nil {
+		z.alt.assign(x, y, c)
+		if x == z.pv {
+			z.repartition()
+		}
+	}
+}
+
+func (z *zone) entails(i, j int, c int64) bool {
+	return z.main.entails(i, j, c) && (z.alt == nil || z.alt.entails(i, j, c))
+}
+
+func zjoin(a, b *zone) *zone {
+	out := &zone{main: czjoin(a.main, b.main), pv: a.pv}
+	if a.alt != nil && b.alt != nil {
+		out.alt = czjoin(a.alt, b.alt)
+	}
+	return out
+}
+
+func zwiden(a, b *zone) *zone {
+	out := &zone{main: czwiden(a.main, b.main), pv: a.pv}
+	if a.alt != nil && b.alt != nil {
+		out.alt = czwiden(a.alt, b.alt)
+	}
+	return out
+}
+
+func zleq(a, b *zone) bool {
+	if !czleq(a.main, b.main) {
+		return false
+	}
+	if a.alt != nil && b.alt != nil {
+		return czleq(a.alt, b.alt)
 	}
 	return true
 }
@@ -199,13 +318,16 @@ type boundsFn struct {
 	sites  map[ast.Node]*boundsSite
 	input  map[types.Object]bool // variables carrying input text
 	undec  string
+	// pv: index of the partition variable (0 = none): an integer local that is
+	// given a negative constant and compared with it (a "not found yet" sentinel)
+	pv int
 }
 
 type flowOut struct {
 	next, brk, cont *zone
 }
 
-func (b *boundsFn) bottom() *zone { return bottomZone(b.n) }
+func (b *boundsFn) bottom() *zone { return bottomZone(b.n, b.pv) }
 
 func isStringT(t types.Type) bool {
 	bt, ok := t.Underlying().(*types.Basic)
@@ -335,7 +457,7 @@ func (b *boundsFn) entailsLE(z *zone, a, c lin, k int64) bool {
 
 // refine z by cond being `truth`; index expressions inside cond are checked on the way
 func (b *boundsFn) refine(z *zone, cond ast.Expr, truth bool) *zone {
-	if z.bot {
+	if z.isBot() {
 		return z
 	}
 	info := b.p.Info
@@ -457,7 +579,7 @@ func (b *boundsFn) site(n ast.Node, ok bool, detail string) {
 
 // checkExpr walks e in evaluation order and checks the index/slice expressions on input text
 func (b *boundsFn) checkExpr(z *zone, e ast.Expr) {
-	if e == nil || z.bot {
+	if e == nil || z.isBot() {
 		return
 	}
 	info := b.p.Info
@@ -542,7 +664,7 @@ func (b *boundsFn) checkExpr(z *zone, e ast.Expr) {
 func (b *boundsFn) assignTo(z *zone, lhs ast.Expr, rhs ast.Expr, multi int) {
 	info := b.p.Info
 	o := identObj(info, lhs)
-	if o == nil || z.bot {
+	if o == nil || z.isBot() {
 		return
 	}
 	if v, ok := b.intVar[o]; ok {
@@ -664,7 +786,7 @@ func (b *boundsFn) assignTo(z *zone, lhs ast.Expr, rhs ast.Expr, multi int) {
 
 func (b *boundsFn) exec(z *zone, s ast.Stmt) flowOut {
 	out := flowOut{next: b.bottom(), brk: b.bottom(), cont: b.bottom()}
-	if z.bot {
+	if z.isBot() {
 		return out
 	}
 	info := b.p.Info
@@ -1069,7 +1191,55 @@ func (p *Pkg) analyseBounds(fd *ast.FuncDecl) (*boundsFn, error) {
 			return true
 		})
 	}
-	z := newZone(b.n)
+	// the partition variable: assigned a negative constant and tested against 0 / −1
+	{
+		negAssigned := map[types.Object]bool{}
+		tested := map[types.Object]bool{}
+		isNegConst := func(e ast.Expr) bool {
+			c, ok := constInt64(info, e)
+			return ok && c < 0
+		}
+		ast.Inspect(fd.Body, func(n ast.Node) bool {
+			switch st := n.(type) {
+			case *ast.AssignStmt:
+				if len(st.Lhs) == len(st.Rhs) {
+					for i, l := range st.Lhs {
+						if o := identObj(info, l); o != nil && isNegConst(st.Rhs[i]) {
+							negAssigned[o] = true
+						}
+					}
+				}
+			case *ast.ValueSpec:
+				for i, nm := range st.Names {
+					if i < len(st.Values) && isNegConst(st.Values[i]) {
+						if o := info.Defs[nm]; o != nil {
+							negAssigned[o] = true
+						}
+					}
+				}
+			case *ast.BinaryExpr:
+				switch st.Op {
+				case token.LSS, token.GEQ, token.EQL, token.NEQ, token.GTR, token.LEQ:
+					if c, ok := constInt64(info, st.Y); ok && (c == 0 || c == -1) {
+						if o := identObj(info, st.X); o != nil {
+							tested[o] = true
+						}
+					}
+				}
+			}
+			return true
+		})
+		best := token.NoPos
+		for o := range negAssigned {
+			if idx, ok := b.intVar[o]; ok && tested[o] {
+				if best == token.NoPos || o.Pos() < best {
+					best = o.Pos()
+					b.pv = idx
+				}
+			}
+		}
+	}
+	z := newZone(b.n, b.pv)
 	for _, v := range b.lenVar {
 		z.add(0, v, 0)
 	}
